@@ -4,5 +4,6 @@ package all
 import (
 	_ "fxmc/props/c01"
 	_ "fxmc/props/c02"
+	_ "fxmc/props/c03"
 	_ "fxmc/props/c07"
 )
